@@ -478,8 +478,9 @@ TFTags(p) ==
 
 \* the transferring process dies / loses its connection / is cancelled: nothing of it continues
 \* positions at which the engine's store wrapper can make the process die (Gran = "gate"): a WriteTableFile, the
-\* AddTableFilesToManifest, the Commit of a push's ref update, the first ref update of a fetch
-Realisable(x) == \/ x.pc \in {"upload", "addfiles", "refread", "edit", "cas"}
+\* AddTableFilesToManifest, the Commit of a push's ref update, the first ref update of a fetch (between two gates the real
+\* process runs on by itself; those positions are covered by the exhaustive "fine" configs only)
+Realisable(x) == \/ x.pc \in {"upload", "addfiles", "cas"}
                  \/ (x.pc = "fref" /\ \A j \in 1..(x.idx - 1) : x.heads[BranchSeq[j]] = 0)
 TInterrupt(p) ==
     LET x == xf[p] IN
